@@ -779,4 +779,5 @@ package io
 //@       forall(j, off(dec.buf) + dec.head, off(dec.buf) + dec.tail, mem(dec.buf, j) == ghost.rstream[ival(dec.reader)][ghost.rpos[ival(dec.reader)] - dec.tail - off(dec.buf) + j])
 //@   requires dec.reader != nil ==> dec.buf == nil || len(dec.buf) > 0
 //@   requires valdec.t != nil
+//@   stable dec.head, dec.tail, dec.buf, dec.reader, dec.buf[*]
 //@   modifies ghost.*
